@@ -95,7 +95,9 @@ class CDQueue:
         stack: List[Tuple[List[List[int]], int]] = []
         while True:
             unit = maxi / self.k
-            lbi = int(cost / maxi * self.k)
+            # multiply first: cost / maxi * k is often just below the exact integer
+            # (int(4 / 49.0 * 49) == 3), which put boundary costs in the bucket below
+            lbi = int(cost * self.k / maxi)
             index = (lbi + translation) % self.k
             # assert cost >= 0, f"cost:{cost} element:{element} queue:{self}"
             nelem, val = cells[index]
